@@ -1,6 +1,7 @@
 """C01 - no reported error is ever lost: Ok only when nothing was reported."""
 from .. import common as C
 from .. import engine as E
+from .. import stages as S2
 
 THEOREMS = ["c01_ok_silent", "c01_linear", "c01_each_exactly_once"]
 
@@ -11,6 +12,7 @@ def run(ctx, H):
     else:
         per = 14 if ctx.tier == "quick" else 90
         cases = E.make_cases(ctx, H, per)
+        cases += S2.staged_cases(ctx, H)
     obs = E.run_cases(H, cases)
     bads = E.decide(ctx, H, "c01", cases, obs, "corr_c01",
                     [("mon_c01", "Ok although the error type was asked to record something, or an error value dropped / used twice")],
@@ -18,7 +20,8 @@ def run(ctx, H):
     ctx.coverage.update({
         "evaluations": len(cases), "distinct_nontrivial": E.nontrivial(cases, obs),
         "rule": "every catalogue type (std + hand-written + random derive inputs) x payloads (valid instance with 0..3 mutations, plus shape-blind values) "
-                "x value source (OV / serde_json) x script (all-Continue, all-Break, k-switch, random); non-trivial = distinct (type,payload,script) whose run "
+                "x value source (OV / serde_json) x script (all-Continue, all-Break, k-switch, random), plus staged cases (a from/try_from field reached with a value failing the conversion, a faulty sibling before / after it, "
+                "under every one-flip script: all-Continue except call j, all-Break except call j, switch at k); non-trivial = distinct (type,payload,script) whose run "
                 "calls the error type or returns Ok",
         "input_distribution": E.distribution(cases, obs),
         "samples": [cases[i].describe() for i in (0, len(cases) // 2, len(cases) - 1)],
